@@ -90,6 +90,19 @@ func (s *SpokFile) expandGlobs() error {
 	return nil
 }
 
+// Expand returns the absolute paths of everything under the spokfile's directory that currently
+// matches the glob pattern, remembering the result in the Globs map.
+func (s *SpokFile) Expand(pattern string) ([]string, error) {
+	if !s.hasGlob(pattern) {
+		matches, err := expandGlob(s.Dir, pattern)
+		if err != nil {
+			return nil, err
+		}
+		s.Globs[pattern] = matches
+	}
+	return s.Globs[pattern], nil
+}
+
 // buildGraph takes in a list of requested tasks, examines their dependencies, constructs
 // and returns the dependency graph.
 func (s *SpokFile) buildGraph(requested ...string) (*dag.Graph[string, task.Task], error) {
